@@ -87,7 +87,9 @@ def run(ctx) -> Result:
     n = 120 if not ctx.thorough else 2500
     for i in range(n):
         cfg = pipecheck.CONFIGS[i % len(pipecheck.CONFIGS)]
-        if i % 3 == 2:
+        if i % 6 == 5:
+            hist = pipe.gen_history_arrivals(rng, n=rng.randint(1, 3))
+        elif i % 3 == 2:
             hist = pipe.gen_history_renames(rng, n_renames=rng.randint(2, 5))
         else:
             hist = pipe.gen_history(rng, n_ops=rng.randint(3, 12), paced=True, burst_prob=rng.choice([0.0, 0.5, 0.9]),
